@@ -175,6 +175,16 @@ func (a *Activation) callStatic0(fn *ssa.Function, args []Val, bindings []Val, s
 		return a.inline(target, args, bindings, st, tsubst)
 	}
 	name := fullName(target)
+	// mutating methods of standard-library types that are documented as not safe for concurrent use: the receiver must
+	// be an object this activation allocated itself (nothing else can reach it yet); anything older may be shared
+	if mutatesUnsyncReceiver(name) && len(args) > 0 && args[0].K == KRef {
+		age := t.declareFun("$age", []string{"Int"}, "Int")
+		entry := a.rootAct().entry
+		if entry != nil {
+			t.regArray("$now", "Int")
+			a.obligeSafety(st, "confine", "receiver of "+name+" is private to the caller", "(>= "+sApp(age, args[0].S)+" "+t.lookup(entry, "$now")+")", pos)
+		}
+	}
 	// built-in models for the runtime / standard library
 	if st2, res, ok := a.model(name, target, args, st, pos, sig); ok {
 		return st2, res
@@ -1909,4 +1919,25 @@ func sIntStr(s string) string {
 		return "(- " + s[1:] + ")"
 	}
 	return s
+}
+
+// mutatesUnsyncReceiver: methods (by SSA name) of standard-library types without internal synchronisation that change
+// their receiver: every method of *math/rand.Rand; the writing / consuming methods of bytes.Buffer and strings.Builder.
+func mutatesUnsyncReceiver(name string) bool {
+	for _, p := range []string{"math/rand.(*Rand).", "math/rand/v2.(*Rand)."} {
+		if strings.HasPrefix(name, p) {
+			return true
+		}
+	}
+	for _, p := range []string{"bytes.(*Buffer).", "strings.(*Builder)."} {
+		if strings.HasPrefix(name, p) {
+			m := name[len(p):]
+			for _, w := range []string{"Write", "Read", "Reset", "Truncate", "Grow", "Next", "Unread"} {
+				if strings.HasPrefix(m, w) {
+					return true
+				}
+			}
+		}
+	}
+	return false
 }
